@@ -1,3 +1,5 @@
+import QR.Proofs.SourceTieD4a
+import QR.Proofs.SourceTieD4c
 import QR.Proofs.Raster
 import QR.Proofs.SourceTieC12
 import QR.Proofs.Pinned
@@ -151,6 +153,109 @@ theorem C12_source_pilNewImageColours_src {α : Type} (lower : String → String
   QR.SourceTieT.pilNewImageColours_src lower kwBack kwFill
 
 end SourceTieT2b
+
+/-! ### Tie to the source, package D4 (`tools/t2_fragments/frag_d4.py`): the tail of `QRCode.make_image`, `PilImage.drawrect`,
+    `PilImage.save`, `BaseImage.check_kind` / `get_image`, translated statement by statement from /repo's current Python AST.
+    Restated verbatim from `QR/Proofs/SourceTieD4a.lean`, `SourceTieD4c.lean`. -/
+section SourceTieD4
+open QR.Model QR.Gen.Code QR.SourceTieD4
+
+/-- `QRCode.make_image`: the factory call `image_factory(self.border, self.modules_count, self.box_size,
+    qrcode_modules=self.modules, **kwargs)` - argument order and keyword as the Model's renderers assume -/
+theorem C12_source_makeImage_factory_literals :
+    rd_make_image_factory_args = ["self.border", "self.modules_count", "self.box_size"] ∧
+    rd_make_image_factory_kwargs = [("qrcode_modules", "self.modules"), ("**", "kwargs")] :=
+  QR.SourceTieD4.makeImage_factory_literals
+
+/-- the tail of `QRCode.make_image` (`if im.needs_drawrect: for r ...: for c ...`, `if im.needs_processing: im.process()`) in
+    closed form: the row-major double loop that `Model.pilRaster` and `Model.svgDoc` are written as -/
+theorem C12_source_makeImageDraw_src {S : Type} (nd nc np : Bool) (n : Nat) (M : Mods) (ctx dr : Nat → Nat → S → S)
+    (process : S → S) (im : S) :
+    rd_make_image_draw nd nc np n M ctx dr process im =
+      let cell : Nat → Nat → S → S := fun r c im =>
+        if nc then ctx r c im else if (M.getD r []).getD c false then dr r c im else im
+      let im := if nd then (List.range n).foldl (fun im r => (List.range n).foldl (fun im c => cell r c im) im) im else im
+      if np then process im else im :=
+  QR.SourceTieD4.makeImageDraw_src nd nc np n M ctx dr process im
+
+/-- `make_image` with `PyPNGImage` (`needs_drawrect = False`, read from the class body): no per-module call at all - the image is
+    entirely `Model.pypngRows` -/
+theorem C12_source_pypng_untouched_src {S : Type} (n : Nat) (M : Mods) (ctx dr : Nat → Nat → S → S) (process : S → S) (im : S) :
+    makeImageDraw "PyPNGImage" n M ctx dr process im = im :=
+  QR.SourceTieD4.pypng_untouched_src n M ctx dr process im
+
+/-- `PilImage.drawrect(row, col)` = one call `self._idr.rectangle(Model.pixelBox row col, fill=self.fill_color)` -/
+theorem C12_source_pilDrawrect_src {Fill : Type} (border boxSize : Nat) (fill : Fill) (row col : Nat) (idr : List (rd_Box × Fill)) :
+    rd_pil_drawrect border boxSize fill row col idr = idr ++ [(pixelBox border boxSize row col, fill)] :=
+  QR.SourceTieD4.pilDrawrect_src border boxSize fill row col idr
+
+/-- the callee and keyword of that call -/
+theorem C12_source_pilDrawrect_literals :
+    rd_pil_drawrect_callee = "self._idr.rectangle" ∧ rd_pil_drawrect_keywords = ["fill"] :=
+  QR.SourceTieD4.pilDrawrect_literals
+
+/-- `make_image` + `PilImage.drawrect` (class flags of `PilImage` read from the class bodies): the sequence of
+    `rectangle(box, fill)` calls is `Model.pixelBox` of the dark cells in row-major order, fill = `self.fill_color` -/
+theorem C12_source_pilCalls_src {Fill : Type} (fill : Fill) (M : Mods) (width border boxSize : Nat)
+    (ctx : Nat → Nat → List (rd_Box × Fill) → List (rd_Box × Fill)) (process : List (rd_Box × Fill) → List (rd_Box × Fill))
+    (idr : List (rd_Box × Fill)) :
+    makeImageDraw "PilImage" width M ctx (rd_pil_drawrect border boxSize fill) process idr
+      = idr ++ pilCalls fill M width border boxSize :=
+  QR.SourceTieD4.pilCalls_src fill M width border boxSize ctx process idr
+
+/-- `Model.pilRaster` is the background canvas with exactly these boxes drawn in this order -/
+theorem C12_source_pilRaster_calls {Fill : Type} (fill : Fill) (M : Mods) (width border boxSize : Nat) :
+    pilRaster M width border boxSize
+      = ((pilCalls fill M width border boxSize).map (·.1)).foldl drawBox
+          (Array.replicate (pixelSize width border boxSize) (Array.replicate (pixelSize width border boxSize) false)) :=
+  QR.SourceTieD4.pilRaster_calls fill M width border boxSize
+
+/-- end to end: the translated `make_image` tail with the translated `PilImage.drawrect`, painted on a `pixel_size` square
+    canvas (size as translated from `BaseImage.__init__`), is `Model.pilRaster` -/
+theorem C12_source_pilRaster_src (M : Mods) (width border boxSize : Nat)
+    (ctx : Nat → Nat → List (rd_Box × Unit) → List (rd_Box × Unit)) (process : List (rd_Box × Unit) → List (rd_Box × Unit)) :
+    pilRaster M width border boxSize
+      = ((makeImageDraw "PilImage" width M ctx (rd_pil_drawrect border boxSize ()) process []).map (·.1)).foldl drawBox
+          (Array.replicate (pixel_size border width boxSize) (Array.replicate (pixel_size border width boxSize) false)) :=
+  QR.SourceTieD4.pilRaster_src M width border boxSize ctx process
+
+/-- `PilImage.save(stream, format, **kwargs)`: format = `format`, else keyword `kind`, else the class's `kind`; `kind` is
+    removed from the keywords passed to Pillow (no Model counterpart: closed form) -/
+theorem C12_source_pilSave_src (selfKind : String) (format : Option String) (kwargs : List (String × String)) :
+    rd_pil_save selfKind format kwargs =
+      (some (format.getD ((kwargs.lookup "kind").getD selfKind)), kwargs.filter fun p => p.1 != "kind") :=
+  QR.SourceTieD4.pilSave_src selfKind format kwargs
+
+/-- the call `PilImage.save` ends with -/
+theorem C12_source_pilSave_literals :
+    rd_pil_save_callee = "self._img.save" ∧ rd_pil_save_call_shape = ["stream", "format=format", "**=kwargs"] :=
+  QR.SourceTieD4.pilSave_literals
+
+/-- `BaseImage.check_kind(kind, transform)` = the closed form `checkKind` (no Model counterpart), for all arguments -/
+theorem C12_source_checkKind_src (selfKind : Option String) (allowed : Option (List String)) (kind : Option String)
+    (transform : Option (Option String → Option String)) :
+    rd_check_kind selfKind allowed kind transform.isSome (transform.getD id) = checkKind selfKind allowed kind transform :=
+  QR.SourceTieD4.checkKind_src selfKind allowed kind transform
+
+/-- `kind` / `allowed_kinds` of every image class, resolved along the class hierarchy -/
+theorem C12_source_classKinds_literals :
+    rd_class_kinds = [("PilImage", (some "PNG", none)), ("PyPNGImage", (some "PNG", some ["PNG"])),
+      ("StyledPilImage", (some "PNG", none)), ("SvgFragmentImage", (some "SVG", some ["SVG"])),
+      ("SvgImage", (some "SVG", some ["SVG"])), ("SvgFillImage", (some "SVG", some ["SVG"])),
+      ("SvgPathImage", (some "SVG", some ["SVG"])), ("SvgPathFillImage", (some "SVG", some ["SVG"]))] :=
+  QR.SourceTieD4.classKinds_literals
+
+/-- `BaseImage.get_image(**kwargs)` returns `self._img` -/
+theorem C12_source_getImage_src {I K : Type} (img : I) (kw : K) : rd_get_image img kw = img :=
+  QR.SourceTieD4.getImage_src img kw
+
+/-- `BaseImage.drawrect_context` / `BaseImage.process` raise NotImplementedError (a factory with `needs_context` /
+    `needs_processing` must override them) -/
+theorem C12_source_baseStubs_literals :
+    rd_base_drawrect_context_raises = "NotImplementedError" ∧ rd_base_process_raises = "NotImplementedError" :=
+  QR.SourceTieD4.baseStubs_literals
+
+end SourceTieD4
 
 /-- the Python functions this property's model mirrors have, in /repo's current working tree, exactly the normalised
     ASTs the model was written and validated against (fingerprints regenerated by T1 on every run) -/
